@@ -159,7 +159,7 @@ let handle kind c =
         prop "call-bound" (Printf.sprintf "%d calls, bound %d for %d directory entries" ncalls (int_of_nat bound) ninit)
     end;
     (* ---- oracles on the implementation's observations ---- *)
-    if status = "hang" then prop "hang" "the run exceeded its call budget";
+    if status = "hang" then prop "hang" "the run did not return: call budget exceeded, or blocked for ever on a mutex held by the run itself";
     if exported && escaped then prop "panic-escaped" "a panic escaped the exported Run";
     if (not exported) && escaped && not escaped_rand then
       prop "panic-escaped" "the inner uploader.Run panicked although no entropy failure was injected";
